@@ -184,14 +184,17 @@ def main(argv):
     modules = list(getattr(mod, "LEAN_MODULES", []))
     ctx.driver = getattr(mod, "DRIVER", None)
     drv = [ctx.driver] if ctx.driver else []
-    exe = os.path.join(ROOT, "lean", ".lake", "build", "bin", ctx.driver or "-")
-    if os.path.exists(exe):
-        os.unlink(exe)  # never run a stale model: the driver is rebuilt from the current sources
-    ok, log, secs = leanbuild.build(modules + drv)
+    # the model driver is rebuilt from the current sources by lake (never a stale model: a failed build means no driver) and
+    # this run executes a private copy of it, so concurrent checks relinking the same target cannot disturb it
+    private = os.path.join(ctx.repo, ".verif_driver_" + (ctx.driver or "none"))
+    ok, log, secs = leanbuild.build(modules + drv, copy_exe=(ctx.driver, private) if ctx.driver else None)
+    driver_ok = True
     if not ok and drv:
-        leanbuild.build(drv)  # the proofs may be broken while the executable model still builds
+        okd, _, _ = leanbuild.build(drv, copy_exe=(ctx.driver, private))  # the proofs may be broken while the executable model still builds
+        driver_ok = okd
+    if ctx.driver and driver_ok:
+        wire.DRIVER_COPIES[ctx.driver] = private
     ctx.extra["lake_build_s"] = round(secs, 1)
-    driver_ok = (not drv) or os.path.exists(exe)
     if not ok:
         errs = [l for l in log.split("\n") if "error" in l.lower()][:20]
         ctx.break_("lake build " + " ".join(modules), "\n".join(errs) or log[-1500:])
